@@ -5,7 +5,30 @@ import sys
 
 HERE = os.path.dirname(os.path.dirname(os.path.abspath(__file__)))
 sys.path.insert(0, HERE)
-from harness.registry import CLAIMS, PENDING_REASON, NOT_APPLICABLE  # noqa
+from harness.registry import PENDING_REASON, NOT_APPLICABLE  # noqa
+import ast
+
+
+def read_claim(pid):
+    path = os.path.join(HERE, "harness", "props", pid.lower() + ".py")
+    if not os.path.exists(path):
+        return None
+    tree = ast.parse(open(path).read())
+    for node in tree.body:
+        if isinstance(node, ast.Assign) and any(getattr(t, "id", None) == "CLAIM" for t in node.targets):
+            v = node.value
+            if isinstance(v, ast.Call) and getattr(v.func, "id", "") == "dict":
+                return {k.arg: ast.literal_eval(k.value) for k in v.keywords}
+            return ast.literal_eval(v)
+    return None
+
+
+CLAIMS = {}
+for l in open(os.path.join(HERE, "properties.jsonl")):
+    _pid = json.loads(l)["id"]
+    _c = read_claim(_pid)
+    if _c:
+        CLAIMS[_pid] = _c
 
 props = [json.loads(l) for l in open(os.path.join(HERE, "properties.jsonl"))]
 checks, na = [], []
